@@ -28,10 +28,7 @@ MODULES = ["ffuncs", "xfuncs", "ccubes", "xcubes", "iindexes"]
 ANY, ELEM = 0, 1
 TAG_PROT, TAG_OWN, TAG_DIAG = 0, 1, 2
 FIRST_SITE = 3
-SCALAR_ATTRS = getattr(T, "SCALAR_ATTRS", {"shape", "common", "dtype", "size", "ndim", "rowid_dtype", "ROWID_DTYPE",
-                                           "itemsize", "str", "kind", "name", "null", "N", "ignore_missing",
-                                           "return_missing_as", "probability_scalar", "poolsize", "debug", "parallel",
-                                           "scaffold_size", "mintype"})
+SCALAR_ATTRS = T.SCALAR_ATTRS
 
 
 class Unsupported(Exception):
@@ -510,10 +507,12 @@ NOC = object()
 
 class V:
     """What an expression denotes at translation time."""
-    __slots__ = ("var", "funcs", "unknown_fn", "const", "cls", "mod", "tab", "items")
+    __slots__ = ("var", "funcs", "unknown_fn", "const", "cls", "mod", "tab", "items", "cont", "econt")
 
     def __init__(self, var=None, funcs=(), const=NOC, cls=None, mod=None, tab=(), unknown_fn=False, items=None):
         self.var, self.funcs, self.const, self.cls, self.mod = var, frozenset(funcs), const, cls, mod
+        self.econt = False        # its elements are certainly builtin containers (tuples of .items() / zip / enumerate)
+        self.cont = False         # certainly a builtin container (iteration / subscript yield elements, not views)
         self.items = items        # variables of the components when the value is certainly an n-tuple display
         self.tab = tuple(tab)
         self.unknown_fn = unknown_fn
@@ -559,6 +558,33 @@ def ndarray_locals(fn, module):
     return good - bad
 
 
+def container_locals(fn, module):
+    """Locals whose every binding is a list / dict / set display, a comprehension or a call of
+    list / dict / set / sorted / defaultdict: certainly builtin containers, so `name[k]` and iteration
+    yield ELEMENTS (never a view sharing the container's own memory)."""
+    good, bad, simple = set(), set(), set()
+    if not isinstance(fn, ast.FunctionDef):
+        return good
+    a = fn.args
+    for p in a.posonlyargs + a.args + a.kwonlyargs + ([a.vararg] if a.vararg else []) + ([a.kwarg] if a.kwarg else []):
+        bad.add(p.arg)
+    for n in ast.walk(fn):
+        if isinstance(n, ast.Assign) and len(n.targets) == 1 and isinstance(n.targets[0], ast.Name):
+            v = n.value
+            ok = isinstance(v, (ast.List, ast.Dict, ast.Set, ast.ListComp, ast.DictComp, ast.SetComp)) or (
+                isinstance(v, ast.Call) and isinstance(v.func, ast.Name) and v.func.id in ("list", "dict", "set", "sorted", "defaultdict")
+                and v.func.id not in module.functions and v.func.id not in module.classes
+                and module.imports.get(v.func.id, "collections.defaultdict") == "collections.defaultdict")
+            (good if ok else bad).add(n.targets[0].id)
+            simple.add(id(n.targets[0]))
+    for n in ast.walk(fn):
+        if isinstance(n, ast.Name) and isinstance(n.ctx, (ast.Store, ast.Del)) and id(n) not in simple:
+            bad.add(n.id)
+        elif isinstance(n, ast.FunctionDef) and n is not fn:
+            bad.add(n.name)
+    return good - bad
+
+
 class Frame:
     def __init__(self, tr, fn, module, parent=None, cls=None, self_cls=None, exact=False, kind="function"):
         self.tr, self.fn, self.module, self.parent, self.cls = tr, fn, module, parent, cls
@@ -567,12 +593,14 @@ class Frame:
         self.vars, self.consts, self.funcs, self.fn_unknown, self.mods = {}, {}, {}, set(), {}
         self.ret = tr.newvar()
         self.ret_funcs, self.ret_unknown, self.ret_objs = set(), False, False
+        self.ret_flags = []
         self.ret_items = None     # None: no return seen; False: not always an n-tuple display; else component variables
         self.gen = None
         self.recursive = False
         self.params = []          # (name, var)
         self.self_name = None
         self.nd = ndarray_locals(fn, module) if fn is not None else set()
+        self.cont = container_locals(fn, module) if fn is not None else set()
         self.rebound = set()
         if isinstance(fn, ast.FunctionDef):
             for n in ast.walk(ast.Module(body=fn.body, type_ignores=[])):
@@ -644,13 +672,28 @@ class Translator:
             self.diag[attr] = self.newvar()
         return self.diag[attr]
 
-    def elems(self, v, out, pos=None):
+    def elems(self, v, out, pos=None, views=True):
+        """what subscripting / iterating v yields: an element, or (arrays) a view of v itself"""
         if v is None:
             return None
         x = self.newvar()
         out.append(LOAD(x, ELEM, [v], pos))
-        out.append(ALIAS(x, [x, v], pos))
+        if views:
+            out.append(ALIAS(x, [x, v], pos))
         return x
+
+    def is_container(self, fr, e):
+        """certainly a builtin container (see container_locals), or the result of a call that builds one"""
+        if isinstance(e, ast.Name):
+            o = fr.owner(e.id)
+            return o is not None and e.id in o.cont
+        if isinstance(e, ast.Call) and isinstance(e.func, ast.Attribute) and e.func.attr in ("items", "values", "keys") \
+                and not isinstance(e.func.value, ast.Call):
+            return True
+        if isinstance(e, ast.Call) and isinstance(e.func, ast.Name) and e.func.id in ("list", "sorted", "zip", "enumerate", "range", "reversed") \
+                and fr.owner(e.func.id) is None and e.func.id not in fr.module.functions:
+            return True
+        return False
 
     def fresh(self, node, fr, refs, out, what="", field=ELEM):
         """new object referencing refs as ELEMENTS (not through the wildcard field 0: an attribute
@@ -719,8 +762,10 @@ class Translator:
                 return self.qualified(o.mods[n])
             if n in getattr(o, "clsparams", {}):
                 return V(cls=o.clsparams[n])
-            return V(var=o.var(n), funcs=o.funcs.get(n, ()), unknown_fn=(n in o.fn_unknown),
-                     const=o.consts.get(n, NOC))
+            r = V(var=o.var(n), funcs=o.funcs.get(n, ()), unknown_fn=(n in o.fn_unknown),
+                  const=o.consts.get(n, NOC))
+            r.cont = n in o.cont
+            return r
         m = fr.module
         if n in m.functions:
             return V(funcs=[FuncVal(m.functions[n], m)])
@@ -853,7 +898,7 @@ class Translator:
             self.ex(fr, e.slice, out)
             if b.var is None:
                 return V()
-            return V(var=self.elems(b.var, out, pos))
+            return V(var=self.elems(b.var, out, pos, views=not (b.cont or self.is_container(fr, e.value))))
         if isinstance(e, ast.Slice):
             for p in (e.lower, e.upper, e.step):
                 if p is not None:
@@ -870,7 +915,9 @@ class Translator:
             items = None
             if isinstance(e, ast.Tuple) and not any(isinstance(el, ast.Starred) for el in e.elts):
                 items = list(refs)
-            return V(var=self.fresh(e, fr, refs, out, "display"), items=items)
+            r = V(var=self.fresh(e, fr, refs, out, "display"), items=items)
+            r.cont = True
+            return r
         if isinstance(e, ast.Dict):
             refs = []
             for k, v in zip(e.keys, e.values):
@@ -879,7 +926,9 @@ class Translator:
                 else:
                     self.ex(fr, k, out)
                     refs.append(self.ex(fr, v, out).var)
-            return V(var=self.fresh(e, fr, refs, out, "display"))
+            r = V(var=self.fresh(e, fr, refs, out, "display"))
+            r.cont = True
+            return r
         if isinstance(e, ast.UnaryOp):
             v = self.ex(fr, e.operand, out)
             if v.var is None:
@@ -895,7 +944,10 @@ class Translator:
             if a.var is None and b.var is None:
                 return V()
             refs = []
-            if isinstance(e.op, (ast.Add, ast.Mult)):      # also tuple / list concatenation, repetition
+            seq = a.cont or b.cont or isinstance(e.left, (ast.Tuple, ast.List)) or isinstance(e.right, (ast.Tuple, ast.List))
+            # `+` may be tuple / list concatenation; `*` is sequence repetition only with a literal /
+            # certain container operand (ASSUMPTION A-mult), otherwise arithmetic: a new array without references
+            if isinstance(e.op, ast.Add) or (isinstance(e.op, ast.Mult) and seq):
                 c = self.newvar()
                 out.append(LOAD(c, ELEM, [a.var, b.var], pos))
                 refs = [c]
@@ -997,10 +1049,8 @@ class Translator:
                     blk.append(STORE(res, ELEM, v.var, pos))
                 return
             g = e.generators[i]
-            it = self.ex(cf if i else fr, g.iter, blk)
             body = []
-            el = self.elems(it.var, body, pos)
-            self.assign(cf, g.target, V(var=el), body, pos)
+            self.bind_loop(fr, cf if i else fr, g.iter, g.target, cf, blk, body, pos)
             inner = body
             for c in g.ifs:
                 sc = self.static_cond(cf, c)
@@ -1012,7 +1062,9 @@ class Translator:
             blk.append(LOOP(body))
 
         gen(0, out)
-        return V(var=res)
+        r = V(var=res)
+        r.cont = True
+        return r
 
     # ---- calls -----------------------------------------------------------------------------------
     def eval_args(self, fr, node, out):
@@ -1088,6 +1140,9 @@ class Translator:
                 for c, fn in self.method_defs(m):
                     cands.append(FuncVal(fn, c.module, cls=c, kind=c.kinds[m], self_cls=c, exact=False))
                 use_table = m in T.METHODS
+                lo_hi = getattr(T, "METHOD_ARITY", {}).get(m)
+                if lo_hi is not None and not star and not (lo_hi[0] <= len(args) <= lo_hi[1]):
+                    use_table = False
             cands = [fv for fv in cands if self.arity_ok(fv, len(args), kw, bool(star), bool(dstar), bound=True)]
             branches = []
             res = self.newvar()
@@ -1118,8 +1173,12 @@ class Translator:
                 fs |= r.funcs
             unk = bool(fs) and any(r.unknown_fn or (r.var is not None and not r.funcs) for r in rs)
             if len(rs) == 1:
-                return V(var=rs[0].var, funcs=fs, unknown_fn=unk, items=rs[0].items)
-            return V(var=res if any_obj else None, funcs=fs, unknown_fn=unk)
+                r = V(var=rs[0].var, funcs=fs, unknown_fn=unk, items=rs[0].items)
+            else:
+                r = V(var=res if any_obj else None, funcs=fs, unknown_fn=unk)
+            r.cont = all(x.cont for x in rs)
+            r.econt = all(x.econt for x in rs)
+            return r
         fvl = self.ex(fr, f, out)
         args, star, kw, dstar = self.eval_args(fr, node, out)
         return self.call_value(fr, node, fvl, args, star, kw, dstar, out, what=ast.unparse(f)[:40])
@@ -1214,7 +1273,12 @@ class Translator:
             unk = unk or r.unknown_fn
         if len(branches) == 1 and (branches[0][1].cls is not None or branches[0][1].items is not None):
             return branches[0][1]
-        return V(var=res if any_obj else None, funcs=fs, unknown_fn=unk or (bool(fs) and any(r.var is not None and not r.funcs for _, r in branches)))
+        out_v = V(var=res if any_obj else None, funcs=fs, unknown_fn=unk or (bool(fs) and any(r.var is not None and not r.funcs for _, r in branches)))
+        out_v.cont = all(r.cont for _, r in branches)
+        out_v.econt = all(r.econt for _, r in branches)
+        if len(branches) == 1:
+            out_v.items = branches[0][1].items
+        return out_v
 
     def table_kind(self, tname):
         if tname in T.QUALIFIED:
@@ -1253,6 +1317,14 @@ class Translator:
         av = [a.var for a in args] + [self.elems(s.var, out, pos) for s in star]
         kv = [v.var for v in kw.values()] + [self.elems(s.var, out, pos) for s in dstar]
         allv = [v for v in av + kv if v is not None]
+        contv = {a.var for a in args + list(kw.values()) if a.cont and a.var is not None}
+        if tname.endswith(".items") or tname.endswith(".values") or tname.endswith(".keys"):
+            contv |= set(allv)
+
+        def mk(v):
+            r = V(var=v)
+            r.cont = True
+            return r
         a0 = av[0] if av else None
         rest = [v for v in av[1:] + kv if v is not None]
         site = lambda w="": self.site(node, fr, tname + w)
@@ -1268,20 +1340,22 @@ class Translator:
             self.fresh_at(x, site(), [c], out, pos)
             return V(var=x)
         if kind == "freshc":
-            cs = [self.elems(v, out, pos) for v in allv]
+            cs = [self.elems(v, out, pos, views=v not in contv) for v in allv]
             if tname.endswith("dict"):
                 cs += [self.elems(c, out, pos) for c in list(cs)]
             self.fresh_at(x, site(), cs, out, pos)
-            return V(var=x)
+            return mk(x)
         if kind == "freshr":
             self.fresh_at(x, site(), allv, out, pos)
-            return V(var=x)
+            return mk(x)
         if kind == "pairs":
-            cs = [self.elems(v, out, pos) for v in allv]
+            cs = [self.elems(v, out, pos, views=v not in contv) for v in allv]
             t = self.newvar()
             self.fresh_at(t, site("/tuple"), cs, out, pos)
             self.fresh_at(x, site(), [t], out, pos)
-            return V(var=x)
+            r = mk(x)
+            r.econt = True
+            return r
         if kind == "view":
             out.append(ALIAS(x, [a0], pos))
             return V(var=x) if a0 is not None else V()
@@ -1293,15 +1367,16 @@ class Translator:
             out.append(FRESH(x, site(), [], pos))
             out.append(ALIAS(x, [x] + allv, pos))
             return V(var=x)
+        keyless = [v for v in av[2:] + kv if v is not None]      # (receiver, key, default...): the key is not a result
         if kind == "elem":
             out.append(LOAD(x, ELEM, [a0], pos))
-            out.append(ALIAS(x, [x] + rest, pos))
+            out.append(ALIAS(x, [x] + keyless, pos))
             fs = set()
             for v in args[1:] + list(kw.values()):
                 fs |= v.funcs
             return V(var=x, funcs=fs, unknown_fn=True if fs else False)
         if kind == "elems":
-            e = self.elems(a0, out, pos)
+            e = self.elems(a0, out, pos, views=a0 not in contv)
             out.append(ALIAS(x, [e] + rest, pos))
             return V(var=x)
         if kind == "inplace":
@@ -1314,7 +1389,7 @@ class Translator:
                 return V()
             out.append(MUT(a0, pos))
             out.append(LOAD(x, ELEM, [a0], pos))
-            out.append(ALIAS(x, [x] + rest, pos))
+            out.append(ALIAS(x, [x] + keyless, pos))
             return V(var=x)
         if kind == "store":
             if a0 is None:
@@ -1338,10 +1413,10 @@ class Translator:
             if a0 is None:
                 return V()
             out.append(MUT(a0, pos))
-            for r in rest:
+            for r in keyless:
                 out.append(STORE(a0, ELEM, r, pos))
             out.append(LOAD(x, ELEM, [a0], pos))
-            out.append(ALIAS(x, [x] + rest, pos))
+            out.append(ALIAS(x, [x] + keyless, pos))
             return V(var=x)
         if kind in ("hof_map", "hof_axis"):
             if kind == "hof_map":
@@ -1489,11 +1564,17 @@ class Translator:
         else:
             out.extend(body)
         if nf.gen is not None:
-            return V(var=nf.gen)
+            r = V(var=nf.gen)
+            r.cont = True
+            return r
         if not nf.ret_objs and not nf.ret_funcs:
             return V()
         items = nf.ret_items if (nf.ret_items and not nf.recursive) else None
-        return V(var=nf.ret, funcs=nf.ret_funcs, unknown_fn=nf.ret_unknown and bool(nf.ret_funcs), items=items)
+        r = V(var=nf.ret, funcs=nf.ret_funcs, unknown_fn=nf.ret_unknown and bool(nf.ret_funcs), items=items)
+        if nf.ret_flags and not nf.recursive:
+            r.cont = all(c for c, _ in nf.ret_flags)
+            r.econt = all(e for _, e in nf.ret_flags)
+        return r
 
     # ---- statements ------------------------------------------------------------------------------
     def block(self, fr, stmts, k):
@@ -1542,6 +1623,7 @@ class Translator:
                         if not v.funcs:
                             fr.ret_unknown = True
                     fr.ret_funcs |= v.funcs
+                    fr.ret_flags.append((v.cont, v.econt))
                     if v.unknown_fn:
                         fr.ret_unknown = True
                 return out
@@ -1620,12 +1702,8 @@ class Translator:
                 raise Unsupported("augmented assignment target")
         elif isinstance(s, (ast.For, ast.While)):
             if isinstance(s, ast.For):
-                it = self.ex(fr, s.iter, out)
                 body = []
-                if self.iter_has_generator_call(fr, s.iter):
-                    it = self.ex(fr, s.iter, body)      # the generator body runs interleaved with the loop body
-                el = self.elems(it.var, body, pos)
-                self.assign(fr, s.target, V(var=el), body, pos)
+                self.bind_loop(fr, fr, s.iter, s.target, fr, out, body, pos)
             else:
                 body = []
                 self.ex(fr, s.test, body)
@@ -1685,6 +1763,45 @@ class Translator:
         else:
             raise Unsupported("statement %s" % type(s).__name__)
 
+    def zip_like(self, fr, it, target):
+        """`for a, b in zip(xs, ys)` / `for i, x in enumerate(xs)`: component-wise binding"""
+        if not (isinstance(it, ast.Call) and isinstance(it.func, ast.Name) and it.func.id in ("zip", "enumerate")
+                and fr.owner(it.func.id) is None and it.func.id not in fr.module.functions and it.func.id not in fr.module.imports
+                and isinstance(target, (ast.Tuple, ast.List)) and not it.keywords
+                and not any(isinstance(a, ast.Starred) for a in it.args)
+                and not any(isinstance(e, ast.Starred) for e in target.elts)):
+            return False
+        if it.func.id == "zip":
+            return len(it.args) == len(target.elts)
+        return len(target.elts) == 2 and 1 <= len(it.args) <= 2
+
+    def bind_loop(self, fr, efr, it_expr, target, tfr, out, body, pos):
+        """evaluate the iterable (frame efr, effects into out) and bind the loop target (frame tfr, into body)"""
+        if self.zip_like(efr, it_expr, target):
+            vs = [self.ex(efr, a, out) for a in it_expr.args]
+            if it_expr.func.id == "enumerate":
+                vs = [V(), vs[0]]
+                for t, v in zip(target.elts, vs):
+                    if v.var is None:
+                        self.assign(tfr, t, V(), body, pos)
+                    else:
+                        ev = V(var=self.elems(v.var, body, pos, views=not (v.cont or self.is_container(efr, it_expr.args[0]))))
+                        ev.cont = v.econt
+                        self.assign(tfr, t, ev, body, pos)
+                return
+            for t, v, a in zip(target.elts, vs, it_expr.args):
+                ev = V(var=self.elems(v.var, body, pos, views=not (v.cont or self.is_container(efr, a))))
+                ev.cont = v.econt
+                self.assign(tfr, t, ev, body, pos)
+            return
+        it = self.ex(efr, it_expr, out)
+        if efr is tfr and self.iter_has_generator_call(efr, it_expr):
+            it = self.ex(efr, it_expr, body)      # the generator body runs interleaved with the loop body
+        el = self.elems(it.var, body, pos, views=not (it.cont or self.is_container(efr, it_expr)))
+        ev = V(var=el)
+        ev.cont = it.econt
+        self.assign(tfr, target, ev, body, pos)
+
     def iter_has_generator_call(self, fr, e):
         for n in ast.walk(e):
             if isinstance(n, ast.Call):
@@ -1723,7 +1840,10 @@ class Translator:
             for e, iv in zip(t.elts, v.items):
                 self.assign(fr, e, V(var=iv), out, pos)
         elif isinstance(t, (ast.Tuple, ast.List)):
-            el = self.elems(v.var, out, pos) if v.var is not None else None
+            # ASSUMPTION A-unpack: sequence unpacking is applied to tuples / lists (its components are
+            # ELEMENTS), never to a 2-d ndarray (whose rows would be views); zip()/enumerate() loops
+            # over arrays are handled separately (bind_loop) and do yield views.
+            el = self.elems(v.var, out, pos, views=False) if v.var is not None else None
             for e in t.elts:
                 if isinstance(e, ast.Starred):
                     n = self.fresh(e, fr, [el], out, "starred-target")
@@ -1867,7 +1987,7 @@ def build_program(src, name, module, fn, cls=None, kind="function", spec=None):
         body, rets = [MUT(pv, ("untranslatable", err))], []
     return {"name": name, "body": body, "entry_v": entry_v, "entry_h": entry_heap(src), "protected": [TAG_PROT],
             "rets": rets, "ret_fresh": bool(rf is not None and err is None), "error": err, "claims": tr.claims,
-            "failclosed": tr.failclosed, "nvars": tr.nv, "nsites": len(tr.sites), "size": ir_size(body),
+            "failclosed": tr.failclosed, "site_desc": tr.site_desc, "nvars": tr.nv, "nsites": len(tr.sites), "size": ir_size(body),
             "file": module.name + ".py", "line": fn.lineno}
 
 
@@ -1914,11 +2034,14 @@ def program_list(src):
 
 
 def translate_all(src):
-    progs = []
+    """(claimed programs, names of in-scope functions left to the run-time comparison)"""
+    progs, runtime_only = [], []
     for (name, m, fn, c, kind) in program_list(src):
-        p = build_program(src, name, m, fn, c, kind)
-        progs.append(p)
-    return progs
+        if name in T.RUNTIME_ONLY:
+            runtime_only.append(name)
+            continue
+        progs.append(build_program(src, name, m, fn, c, kind))
+    return progs, runtime_only
 
 
 class _DropCopy(ast.NodeTransformer):
@@ -1971,3 +2094,72 @@ def control_mutants(repo):
         except Exception:  # noqa - a control that cannot be built is simply absent (reported by the check)
             continue
     return out
+
+
+# ================================================================================================
+# part 6: Progs.v
+# ================================================================================================
+GEN_PATH = os.path.join(core.COQ, "theories", "Effects", "gen", "Progs.v")
+INFO_PATH = os.path.join(core.CACHE, "effects_progs.json")
+
+
+def fail_closed_program(name, why):
+    return {"name": name, "body": [MUT(0, ("untranslatable", why))], "entry_v": {0: {TAG_PROT}},
+            "entry_h": {TAG_PROT: {(ELEM, TAG_PROT)}}, "protected": [TAG_PROT], "rets": [], "ret_fresh": False,
+            "error": why, "claims": [], "failclosed": [], "site_desc": {}, "nvars": 1, "nsites": 0, "size": 1, "file": "", "line": 0}
+
+
+def generate(repo):
+    """Translate the working tree.  Never raises: whatever cannot be parsed / expressed becomes a program
+    the checker rejects (fail closed)."""
+    try:
+        src = Source(repo)
+        progs, runtime_only = translate_all(src)
+        controls = control_mutants(repo)
+        err = None
+    except Exception as e:  # noqa - e.g. SyntaxError in the working tree
+        progs, runtime_only, controls = [fail_closed_program("catii (source not translatable)", repr(e)[:300])], [], []
+        err = repr(e)[:300]
+    lines = ["(* GENERATED by harness/translate_effects.py from %s/src/catii - do not edit. *)" % repo,
+             "From Coq Require Import List Bool Arith.", "From Catii Require Import Effects.IR Effects.Sem Effects.Analysis.",
+             "Import ListNotations.", ""]
+    lines.append("(* program names (pname):")
+    for i, p in enumerate(progs):
+        lines.append("   %3d  %s%s" % (i, p["name"], "   [ret_fresh]" if p["ret_fresh"] else ""))
+    lines.append("   in scope, NOT claimed here (run-time comparison only): %s *)" % ", ".join(runtime_only))
+    lines.append("")
+    for i, p in enumerate(progs):
+        lines.append(coq_program(i, p))
+    lines.append("Definition all_progs : list program := [\n  %s\n]." % ";\n  ".join(coq_ident(p["name"]) for p in progs))
+    lines.append("")
+    for j, p in enumerate(controls):
+        lines.append(coq_program(1000 + j, p).replace(coq_ident(p["name"]), "control_%d" % j))
+    lines.append("(* control mutants: the same translator on the same sources with ONE `x = x.copy()` deleted *)")
+    lines.append("Definition neg_progs : list program := [%s]." % "; ".join("control_%d" % j for j in range(len(controls))))
+    text = "\n".join(lines) + "\n"
+    info = {"ok": err is None, "error": err, "repo": repo,
+            "programs": [{k: p[k] for k in ("name", "ret_fresh", "error", "size", "nvars", "nsites", "failclosed", "file", "line")} for p in progs],
+            "runtime_only": {n: T.RUNTIME_ONLY[n] for n in runtime_only},
+            "controls": [p["name"] for p in controls],
+            "claims": [c for p in progs for c in p["claims"]]}
+    return text, info, progs, controls
+
+
+def regenerate(repo=None, with_mirror=False):
+    """Called by harness/setup.regenerate() and by the C17 check on every run."""
+    repo = repo or core.REPO
+    text, info, progs, controls = generate(repo)
+    core.write_if_changed(GEN_PATH, text)
+    if with_mirror:
+        for p, pi in zip(progs, info["programs"]):
+            ok, why = mirror_pure(p)
+            pi["mirror_pure"], pi["mirror_reason"] = ok, why
+        info["controls_mirror"] = [mirror_pure(p)[0] for p in controls]
+    try:
+        os.makedirs(core.CACHE, exist_ok=True)
+        with open(INFO_PATH, "w") as f:
+            json.dump(info, f, indent=1, default=str)
+    except OSError:
+        pass
+    info["path"] = GEN_PATH
+    return info
